@@ -5,6 +5,7 @@ Positions are `Fraction` values, which are never NaN (`C05.fraction_range`).
 -/
 import Pastel.Lemmas.Scale
 import Pastel.Lemmas.ScaleMap
+import Pastel.Lemmas.Gradient
 import Pastel.RealInst
 import Pastel.Props.C05
 
@@ -240,6 +241,108 @@ theorem sample_at_stop (l : List (Stop P C)) (hs : SortedStops l) (s : Stop P C)
   rcases hc with ⟨_, hc⟩ | ⟨hq, _⟩
   · exact hc
   · rw [feq_refl hn] at hq; cases hq
+
+/-- **At a stop's own position a scale with at least two stops yields that stop's colour**
+(existence and exactness together). -/
+theorem sample_at_stop_some (l : List (Stop P C)) (hs : SortedStops l) (s : Stop P C) (hsl : s ∈ l)
+    (hn : isNaN s.2 = false) (h2 : 2 ≤ l.length) (mix : C → C → P → C) : sampleScale l s.2 mix = some s.1 := by
+  have hle : s.2 ≤ s.2 := le_refl hn
+  cases h : sampleScale l s.2 mix with
+  | some c => rw [sample_at_stop l hs s hsl mix c h]
+  | none =>
+    exfalso
+    unfold sampleScale at h
+    have hlen : ¬ l.length < 2 := by omega
+    simp only [hlen, if_false] at h
+    have hl : (l.reverse.find? (fun c => decide (c.2 ≤ s.2))).isSome := by
+      rw [List.find?_isSome]
+      exact ⟨s, List.mem_reverse.mpr hsl, by simpa using hle⟩
+    have hr : (l.find? (fun c => decide (s.2 ≤ c.2))).isSome := by
+      rw [List.find?_isSome]
+      exact ⟨s, hsl, by simpa using hle⟩
+    obtain ⟨a, ha⟩ := Option.isSome_iff_exists.mp hl
+    obtain ⟨b, hb⟩ := Option.isSome_iff_exists.mp hr
+    rw [ha, hb] at h
+    simp only [] at h
+    split at h <;> cases h
+
+/-! ### `pastel gradient`: exactly `N` colours, the first is `c₁`, the last is `c_k` (exact arithmetic) -/
+
+section gradient
+variable {C : Type}
+
+theorem gradientStops_sorted (cs : List C) : SortedStops (gradientStops (P := ℝ) cs) := by
+  have h := (reachable_sorted (P := ℝ) (cs.zipIdx.map (fun ci => (ci.1, (Sc.ofNat ci.2 / (Sc.ofNat cs.length - 1.0) : ℝ))))).1
+  rw [List.foldl_map] at h
+  exact h
+
+/-- **`pastel gradient -n N c₁ … c_k`** (exact arithmetic, every `k ≥ 2`, `N ≥ 2`, every colour
+space's mixing function): exactly `N` samples, the first is `c₁` itself and the last is `c_k`
+itself; line `i` is by definition the sample of the evenly spaced scale at `i/(N−1)`. -/
+theorem gradient_first_last (cs : List C) (hk : 2 ≤ cs.length) (N : Nat) (hN : 2 ≤ N) (mix : C → C → ℝ → C)
+    (c1 ck : C) (h1 : cs.head? = some c1) (hl : cs.getLast? = some ck) :
+    (gradient (P := ℝ) cs N mix).length = N ∧
+    (gradient (P := ℝ) cs N mix)[0]? = some (some c1) ∧
+    (gradient (P := ℝ) cs N mix)[N - 1]? = some (some ck) ∧
+    ∀ i, i < N → (gradient (P := ℝ) cs N mix)[i]? =
+      some (sampleScale (gradientStops (P := ℝ) cs) (fraction (Sc.ofNat i / (Sc.ofNat N - 1.0))) mix) := by
+  have hK : (0 : ℝ) < (cs.length : ℝ) - 1 := by
+    have : (2 : ℝ) ≤ (cs.length : ℝ) := by exact_mod_cast hk
+    linarith
+  have hNr : (0 : ℝ) < (N : ℝ) - 1 := by
+    have : (2 : ℝ) ≤ (N : ℝ) := by exact_mod_cast hN
+    linarith
+  have hsorted := gradientStops_sorted cs
+  have hstops := gradientStops_real cs hk
+  have hlen2 : 2 ≤ (gradientStops (P := ℝ) cs).length := by
+    rw [hstops]; simp [evenStops]; exact hk
+  have hget : ∀ i, i < N → (gradient (P := ℝ) cs N mix)[i]? =
+      some (sampleScale (gradientStops (P := ℝ) cs) (fraction (Sc.ofNat i / (Sc.ofNat N - 1.0))) mix) := by
+    intro i hi
+    unfold gradient
+    simp [List.getElem?_map, List.getElem?_range hi]
+  refine ⟨by simp [gradient], ?_, ?_, hget⟩
+  · rw [hget 0 (by omega)]
+    have hp : fraction (Sc.ofNat 0 / (Sc.ofNat N - 1.0) : ℝ) = 0 := by
+      have e : (Sc.ofNat 0 / (Sc.ofNat N - 1.0) : ℝ) = 0 := by simp only [real_ofNat]; norm_num
+      rw [e]; exact real_fraction_id 0 le_rfl (by norm_num)
+    rw [hp]
+    have hmem : ((c1, (0 : ℝ)) : Stop ℝ C) ∈ gradientStops (P := ℝ) cs := by
+      rw [hstops]
+      match cs, h1 with
+      | c :: rest, h1 =>
+        simp only [List.head?_cons, Option.some.injEq] at h1
+        subst h1
+        simp [evenStops, List.zipIdx_cons]
+    have := sample_at_stop_some _ hsorted (c1, (0 : ℝ)) hmem rfl hlen2 mix
+    simp only [] at this
+    rw [this]
+  · rw [hget (N - 1) (by omega)]
+    have hp : fraction (Sc.ofNat (N - 1) / (Sc.ofNat N - 1.0) : ℝ) = 1 := by
+      have e : (Sc.ofNat (N - 1) / (Sc.ofNat N - 1.0) : ℝ) = 1 := by
+        simp only [real_ofNat]
+        have : ((N - 1 : ℕ) : ℝ) = (N : ℝ) - 1 := by
+          rw [Nat.cast_sub (by omega)]; norm_num
+        rw [this]; norm_num
+        exact hNr.ne'
+      rw [e]; exact real_fraction_id 1 (by norm_num) le_rfl
+    rw [hp]
+    have hmem : ((ck, (1 : ℝ)) : Stop ℝ C) ∈ gradientStops (P := ℝ) cs := by
+      rw [hstops]
+      unfold evenStops
+      rw [List.mem_map]
+      refine ⟨(ck, cs.length - 1), ?_, ?_⟩
+      · rw [List.mem_zipIdx_iff_getElem?]
+        rw [← hl, List.getLast?_eq_getElem?]
+      · simp only [Prod.mk.injEq, true_and]
+        have : ((cs.length - 1 : ℕ) : ℝ) = (cs.length : ℝ) - 1 := by
+          rw [Nat.cast_sub (by omega)]; norm_num
+        rw [this]; exact div_self hK.ne'
+    have := sample_at_stop_some _ hsorted (ck, (1 : ℝ)) hmem rfl hlen2 mix
+    simp only [] at this
+    rw [this]
+
+end gradient
 
 /-- The same invariant for IEEE float positions. -/
 theorem float_reachable_sorted {C : Type} (ops : List (C × Float)) :
